@@ -527,6 +527,37 @@ var snippets = [][]string{
 	{"o := [z | z := input.o[_]]"},
 	{"default q := false"},
 	{"s if {", "\tinput.s == true", "}"},
+	{"tl := input.foo[_]"},
+	{"default dflt = false"},
+	{"tn if {", "\ttime.now_ns() > 0", "\ttime.now_ns() < 5", "}"},
+	{"rx := regex.match(\"a.b\", input.s)"},
+	{"sp := sprintf(\"%s\", [1, 2])"},
+	{"import data.late.imp"},
+	{"wo if {", "\tinput.x with input as {}", "}"},
+	{"io if \"x\" == input.arr[_]"},
+	{"sc if count(indexof_n(\"a\", \"b\")) > 0"},
+	{"ex(x) if x == input.y"},
+	{"ne if {", "\tsome x in input.xs", "\tx != \"a\"", "\tx != \"b\"", "}"},
+	{"el := 1 if {", "\tinput.a", "} else := 2"},
+	{"ca if {", "\tinput.p", "} {", "\tinput.q", "}"},
+	{"eq if input.e == true"},
+	{"wk if {", "\twalk(input, [p, v])", "\tv == 1", "\tcount(p) > 0", "}"},
+	{"ob if {", "\tk := object.keys(input.o)", "\tcount(k) == 0", "}"},
+	{"un if {", "\tsome y", "\ty := input.u", "\ty == 1", "}"},
+}
+
+// validSnippets drops snippets that do not parse as part of a module (reported on stderr, never silently)
+func validSnippets() [][]string {
+	var ok [][]string
+	for _, sn := range snippets {
+		text := "package t\n\n" + strings.Join(sn, "\n") + "\n"
+		if _, err := rules.InputFromText("t.rego", text); err != nil {
+			fmt.Fprintf(os.Stderr, "c06: snippet dropped (does not parse): %q: %v\n", sn[0], err)
+			continue
+		}
+		ok = append(ok, sn)
+	}
+	return ok
 }
 
 type module struct {
@@ -1374,7 +1405,7 @@ func main() {
 
 	nHelper, nMods, maxT, nGenWs, maxAggT := 400, 6, 8, 1, 2
 	if tier == "thorough" {
-		nHelper, nMods, maxT, nGenWs, maxAggT = 3000, 40, 12, 12, 10
+		nHelper, nMods, maxT, nGenWs, maxAggT = 3000, 24, 10, 8, 6
 	}
 	t0 := time.Now()
 	lap := func(what string) {
@@ -1384,6 +1415,7 @@ func main() {
 	helperCases(o, r, out, nHelper)
 	lap("helpers")
 
+	snippets = validSnippets()
 	var mods []*module
 	for i := 0; i < nMods; i++ {
 		mods = append(mods, genModule(r, i))
